@@ -350,6 +350,14 @@ func RenameBinding(c bq.Clause, from, to string) bq.Clause {
 		if t.Kind == bq.KPBind && t.TBind == from {
 			t.TBind = to
 		}
+		if t.Kind == bq.KPBound {
+			if t.LoB == from {
+				t.LoB = to
+			}
+			if t.HiB == from {
+				t.HiB = to
+			}
+		}
 		return t
 	}
 	rs := func(s string) string {
